@@ -129,3 +129,54 @@ func VerifC11_Twin() {
 	zzverif.Assert(a < zzverif.IntRange("bound", 0, 2), "twin-must-fail")
 	zzverif.Reach("twin")
 }
+
+// Two first requests of one client at the same moment share one bucket: with
+// N = 1 at most one of them is admitted (concurrent get-or-create).
+func VerifC11_ConcurrentFirstRequests() {
+	runs := 0
+	h := zzChain(&ast.Route{Path: "/p", Method: ast.Get, RateLimit: &ast.RateLimit{Requests: 1, Window: "min"}},
+		func(ctx *server.Context) error { runs++; return nil })
+	zzverif.AdvanceClock(0)
+	done := make(chan int, 2)
+	for k := 0; k < 2; k++ {
+		go func() {
+			zzverif.Perturb()
+			st, _ := zzServe(h, &http.Request{Method: "GET", Header: http.Header{}, RemoteAddr: "10.0.0.9:1"})
+			done <- st
+		}()
+	}
+	a, b := <-done, <-done
+	admitted := 0
+	if a != 429 {
+		admitted++
+	}
+	if b != 429 {
+		admitted++
+	}
+	zzverif.Assert(admitted == 1, "concurrent first requests: not exactly one admitted for N=1")
+	// and the client stays limited afterwards
+	st, _ := zzServe(h, &http.Request{Method: "GET", Header: http.Header{}, RemoteAddr: "10.0.0.9:2"})
+	zzverif.Assert(st == 429, "concurrent first requests: budget available again right afterwards")
+	zzverif.Reach("concurrent-first")
+}
+
+// The table of clients is bounded (stale entries are evicted once it grows
+// past a cap, scaled down by the check configuration): eviction never hands an
+// exhausted client a fresh budget, and never forgets a recent client.
+func VerifC11_EvictionKeepsRecentClients() {
+	runs := 0
+	n := 1 + zzverif.Choice("N", 2)
+	h := zzChain(&ast.Route{Path: "/p", Method: ast.Get, RateLimit: &ast.RateLimit{Requests: uint32(n), Window: "min"}},
+		func(ctx *server.Context) error { runs++; return nil })
+	zzverif.AdvanceClock(0)
+	a0 := zzBurst(h, "10.0.0.1:1", 10, &runs) // X uses its budget up
+	zzverif.Assert(a0 == n, "eviction: first burst not N")
+	others := 3 + zzverif.Choice("others", 3)
+	for k := 0; k < others; k++ {
+		zzServe(h, &http.Request{Method: "GET", Header: http.Header{}, RemoteAddr: "10.0.1." + string(rune('1'+k)) + ":1"})
+	}
+	zzverif.AdvanceClock(time.Duration(zzverif.Choice("pause", 2)) * time.Second)
+	a1 := zzBurst(h, "10.0.0.1:2", 10, &runs)
+	zzverif.Assert(a1 == 0, "eviction: an exhausted client was admitted again after other clients filled the table")
+	zzverif.Reach("eviction")
+}
